@@ -854,6 +854,105 @@ fn interleavings_bound(ws: &[u64]) -> f64 {
     r
 }
 
+
+/// FREE-RUNNING race rounds (no scheduler, no hook callback): k real threads, each owning one clone of a handle that
+/// wraps the write end of a fresh pipe, are released together through a spin barrier and run one short program; the
+/// property is then evaluated on the kernel's view: at most one take, it returned the original number; taken => the
+/// write end is still open (the library must never close it); not taken => the write end is closed once everything is
+/// dropped (the read end reports EOF). This is a search for failing schedules BETWEEN the hook points (e.g. a drop that
+/// decides by `Arc::strong_count` instead of by the atomic decrement): it supports the exhaustive exploration above,
+/// it is not part of the model correspondence and no proof rests on it.
+fn free_running(out: &mut Out, rng: &mut Prng, threads: usize, rounds: usize) {
+    use std::sync::atomic::{AtomicUsize, Ordering};
+    use std::sync::Arc;
+    let menu: [&[OpK]; 6] = [&[], &[OpK::Take], &[OpK::Dup], &[OpK::Get], &[OpK::Clone], &[OpK::Dup, OpK::Take]];
+    let mut reported = 0;
+    for round in 0..rounds {
+        let mut fds = [0i32; 2];
+        if unsafe { libc::pipe2(fds.as_mut_ptr(), libc::O_CLOEXEC | libc::O_NONBLOCK) } != 0 {
+            return;
+        }
+        let (rd, wr) = (fds[0], fds[1]);
+        let handle = UnixFd::new(wr);
+        // mostly plain drops (the last-drop race), sometimes other programs
+        let progs: Vec<&[OpK]> = (0..threads).map(|_| if rng.chance(1, 2) { menu[0] } else { *rng.pick(&menu) }).collect();
+        let barrier = Arc::new(AtomicUsize::new(0));
+        let mut joins = Vec::new();
+        let mut handles: Vec<UnixFd> = (0..threads - 1).map(|_| handle.clone()).collect();
+        handles.push(handle);
+        for (h, prog) in handles.into_iter().zip(progs.iter()) {
+            let prog: Vec<OpK> = prog.to_vec();
+            let barrier = barrier.clone();
+            joins.push(std::thread::spawn(move || {
+                let mut taken: Option<i32> = None;
+                barrier.fetch_add(1, Ordering::SeqCst);
+                while barrier.load(Ordering::SeqCst) < threads {
+                    std::hint::spin_loop();
+                }
+                let mut extra: Vec<UnixFd> = Vec::new();
+                let mut h = Some(h);
+                for op in prog {
+                    match op {
+                        // take_raw_fd consumes the handle (programs of the menu end with it)
+                        OpK::Take => {
+                            if let Some(fd) = h.take().and_then(|hh| hh.take_raw_fd()) {
+                                taken = Some(fd);
+                            }
+                        }
+                        OpK::Get => {
+                            let _ = h.as_ref().map(|hh| hh.get_raw_fd());
+                        }
+                        OpK::Dup => {
+                            if let Some(Ok(d)) = h.as_ref().map(|hh| hh.dup()) {
+                                extra.push(d);
+                            }
+                        }
+                        OpK::Clone => {
+                            if let Some(hh) = h.as_ref() {
+                                extra.push(hh.clone())
+                            }
+                        }
+                        OpK::Drop => {}
+                    }
+                }
+                drop(extra);
+                drop(h);
+                taken
+            }));
+        }
+        let takes: Vec<i32> = joins.into_iter().filter_map(|j| j.join().ok().flatten()).collect();
+        // kernel view of the write end now that every handle is gone
+        let mut byte = [0u8; 1];
+        let n = unsafe { libc::read(rd, byte.as_mut_ptr() as *mut libc::c_void, 1) };
+        let write_end_closed = n == 0; // EOF; -1/EAGAIN = somebody still holds the write end
+        let req = format!("c12.free {} round={}", progs.iter().map(|p| prog_str(p)).collect::<Vec<_>>().join("|"), round);
+        let mut bad: Option<String> = None;
+        if takes.len() > 1 {
+            bad = Some(format!("{} takes succeeded: {:?}", takes.len(), takes));
+        } else if takes.len() == 1 {
+            if takes[0] != wr {
+                bad = Some(format!("take returned {} instead of the original descriptor {}", takes[0], wr));
+            } else if write_end_closed {
+                bad = Some("the descriptor was taken but the library closed it".into());
+            }
+        } else if !write_end_closed {
+            bad = Some("nobody took the descriptor, every handle is dropped, but it was never closed (leak)".into());
+        }
+        if let Some(b) = bad {
+            if reported < 5 {
+                out.violation(&req, &b);
+                reported += 1;
+            }
+        }
+        if takes.len() == 1 && !write_end_closed {
+            unsafe { libc::close(wr) };
+        }
+        unsafe { libc::close(rd) };
+        out.hit(if takes.is_empty() { "free_running_not_taken" } else { "free_running_taken" });
+    }
+    out.hit_n(&format!("free_running_rounds_{}_threads", threads), rounds as u64);
+}
+
 pub fn run(cfg: &Cfg) {
     std::panic::set_hook(Box::new(|_| {}));
     let mut out = Out::new(&cfg.outdir);
@@ -937,11 +1036,17 @@ pub fn run(cfg: &Cfg) {
     if st.incomplete {
         complete = false;
     }
+    // free-running race rounds (after the scheduled exploration: the worker pool is idle, no callback installed here)
+    if !st.fatal {
+        let mut rng = Prng::new(cfg.seed);
+        free_running(&mut out, &mut rng, 2, if cfg.thorough { 40_000 } else { 6_000 });
+        free_running(&mut out, &mut rng, 3, if cfg.thorough { 20_000 } else { 3_000 });
+    }
     out.hit_n("max_schedule_length", st.max_len as u64);
     out.hit_n("max_schedules_per_estimate_percent", st.max_ratio_pct);
     out.hit_n("program_sets", sets);
     let rule = format!(
-        "real threads under a deterministic scheduler (verif_hooks callback blocks at every FdLoad / FdCompareExchange / FdInnerDrop / FdDup / FdClose point and at every operation start; one thread runs at a time); EVERY complete interleaving (stateless DFS, programs re-run from scratch per schedule) of: all unordered pairs of borrow-valid programs of <= {} operations over take/get/dup/clone/drop (each thread starts with one clone of the handle and drops what it still owns at its end) whose static interleaving estimate is <= {}, and all unordered triples of such programs of <= {} operation(s) with estimate <= {}; one case per complete schedule (request = programs + schedule, so distinct by construction); non-trivial = some thread was preempted inside an operation",
+        "real threads under a deterministic scheduler (verif_hooks callback blocks at every FdLoad / FdCompareExchange / FdInnerDrop / FdDup / FdClose point and at every operation start; one thread runs at a time); EVERY complete interleaving (stateless DFS, programs re-run from scratch per schedule) of: all unordered pairs of borrow-valid programs of <= {} operations over take/get/dup/clone/drop (each thread starts with one clone of the handle and drops what it still owns at its end) whose static interleaving estimate is <= {}, and all unordered triples of such programs of <= {} operation(s) with estimate <= {}; one case per complete schedule (request = programs + schedule, so distinct by construction); non-trivial = some thread was preempted inside an operation; plus free-running race rounds (2 and 3 unscheduled threads released through a spin barrier on clones of a handle wrapping a pipe end; take count, taken => still open, not taken => closed, judged from the kernel's view) as a search between the hook points",
         len2, cap2, len3, cap3
     );
     out.finish(&rule, complete);
